@@ -181,6 +181,24 @@ func (p *Prog) align() {
 	}
 	for slot, ms := range missing {
 		fs := fresh[slot]
+		if len(ms) > 1 && len(fs) == 1 {
+			// several pinned functions of one chain family were folded into one new function: it takes the place of the
+			// family's entry point (the only member called from outside the family)
+			for _, fam := range chainFamilies {
+				all, entry := true, ""
+				for _, m := range ms {
+					if !strings.HasPrefix(simple(m), fam.prefix) {
+						all = false
+					}
+					if simple(m) == fam.entry {
+						entry = m
+					}
+				}
+				if all && entry != "" {
+					ms = []string{entry}
+				}
+			}
+		}
 		if len(ms) == 1 && len(fs) == 1 {
 			aliasFunc[cur[fs[0]]] = simple(ms[0])
 			aliasNotes = append(aliasNotes, fmt.Sprintf("function %s is the pinned %s (same receiver and signature; the pinned name is gone)", fs[0], ms[0]))
@@ -307,4 +325,32 @@ func (p *Prog) KnownFunc(fn *ssa.Function) bool {
 	}
 	_, ok := loadPinned().funcs[p.FuncKey(fn)]
 	return ok
+}
+
+// chainFamilies: pinned functions that form one recursive case chain with a single entry point (frozen from the pinned tree).
+var chainFamilies = []struct{ prefix, entry string }{{"insertCase", "insertCase1"}, {"deleteCase", "deleteCase1"}}
+
+// mergedInto: pinned helpers whose only caller is a one-line dispatcher. A refactoring may fold such a helper into the
+// dispatcher; path rules anchored in the helper then read the dispatcher instead (its paths are the union of the helpers'
+// paths, each under the dispatch condition). Frozen from the pinned tree's call graph.
+var mergedInto = map[string]string{
+	"trees/btree.(*Tree).insertIntoLeaf":     "insert",
+	"trees/btree.(*Tree).insertIntoInternal": "insert",
+}
+
+// anchorFn: the method `name` of type tk, or — when it is gone and was folded into its dispatcher — the dispatcher.
+func anchorFn(p *Prog, tk, name string) *ssa.Function {
+	ct := typeByKey(p, tk)
+	if ct == nil {
+		return nil
+	}
+	ms := methodsOf(p, ct)
+	if fn := ms[name]; fn != nil {
+		return fn
+	}
+	i := strings.LastIndexByte(tk, '.')
+	if d, ok := mergedInto[tk[:i+1]+"(*"+tk[i+1:]+")."+name]; ok {
+		return ms[d]
+	}
+	return nil
 }
